@@ -124,6 +124,127 @@ def cache_typestate(prog: Program, rep, RID: str):
             rep.ok(RID, key, "no stale cache on any exit", f.loc(), nontrivial=(f.name == "solve"))
 
 
+def reported_error_recomputed(prog: Program, rep, RID: str):
+    """`error` in the published solution is a function of what is published: |input value - corrected value| summed over the
+    non-ignored edges.  Reading the error *variables* is sound only for a model whose objective pushes each of them down to
+    the absolute difference - not for the few-values model (objective: number of distinct values)."""
+    from rules.common import all_local_defs
+    f = prog.own_method("MinErrorFlow", "get_solution")
+    defs = all_local_defs(f.node)
+    errs = []
+    for st in walk_no_nested(f.node):
+        if isinstance(st, ast.Assign) and dotted(st.targets[0]) == "self._solution" and isinstance(st.value, ast.Dict):
+            for k, v in zip(st.value.keys, st.value.values):
+                if isinstance(k, ast.Constant) and k.value == "error":
+                    errs.append((st, v))
+    if not errs:
+        raise AnalysisError("MinErrorFlow.get_solution: no published `error` entry found")
+    for st, v in errs:
+        e = v
+        seen = 0
+        while isinstance(e, ast.Name) and e.id in defs and seen < 4:
+            e = defs[e.id]
+            seen += 1
+        closure = [e]
+        for n in list(ast.walk(e)):
+            if isinstance(n, ast.Name) and n.id in defs:
+                closure.append(defs[n.id])
+        txt = " ".join(norm(x) for x in closure)
+        key = "MinErrorFlow.get_solution:error"
+        if "edge_error_vars" in txt:
+            rep.violation(RID, key, f"the published error is read from the solver's error variables (`{norm(e)[:80]}`): in the few-flow-values model (and on edges with error "
+                          "scaling 0) these are only upper bounds of the absolute differences, free up to the (1+eps) budget - the reported error is not the error "
+                          "of the returned graph", f.loc(st))
+        elif "self.edge_sol" in txt and "flow_attr" in txt and "abs(" in txt and "edges_to_ignore" in txt:
+            rep.ok(RID, key, "recomputed as sum |input - corrected| over the non-ignored edges", f.loc(st), sample={"expr": norm(e)[:160]})
+        else:
+            raise AnalysisError(f"MinErrorFlow.get_solution: cannot classify the published error `{norm(e)[:100]}`")
+
+
+def few_values_slots(prog: Program, rep, RID: str):
+    """The number of value slots of the few-values model is counted on the first solution over the same (internal) edges the slots
+    are created for.  The published graph lives in the caller's namespace (condensed node names in node-weighted mode) and has no
+    value on ignored edges without flow attribute: indexing it with internal edges raises KeyError or under-counts."""
+    from rules.common import all_local_defs
+    f = prog.own_method("MinErrorFlow", "solve")
+    defs = all_local_defs(f.node)
+    call = [c for c in calls_in(f.node) if (dotted(c.func) or "").endswith("_encode_different_flow_values_and_objective")]
+    if len(call) != 1:
+        raise AnalysisError("MinErrorFlow.solve: call of _encode_different_flow_values_and_objective not found")
+    from sa.pm import kwarg
+    ub = kwarg(call[0], "ub_different_flow_values")
+    es = kwarg(call[0], "edge_subset")
+    if ub is None or es is None:
+        raise AnalysisError("MinErrorFlow.solve: arguments ub_different_flow_values / edge_subset not found")
+    e = ub
+    seen = 0
+    while isinstance(e, ast.Name) and e.id in defs and seen < 4:
+        e = defs[e.id]
+        seen += 1
+    published = {n for n, d in defs.items() if isinstance(d, ast.Call) and (dotted(d.func) or "") in ("self.get_corrected_graph",)}
+    published |= {n for n, d in defs.items() if isinstance(d, ast.Subscript) and "get_solution()" in norm(d) and "graph" in norm(d)}
+    key = "MinErrorFlow.solve:value-slots"
+    names = {n.id for n in ast.walk(e) if isinstance(n, ast.Name)}
+    if names & published:
+        rep.violation(RID, key, f"the number of value slots `{norm(e)[:90]}` is counted on the published graph `{sorted(names & published)[0]}` indexed with the internal "
+                      f"edges of `{norm(es)}`: in node-weighted mode that graph has the caller's node names (KeyError), and ignored edges without flow attribute "
+                      "all count as one value (too few slots, infeasible second model)", f.loc(call[0]))
+    elif "self.edge_sol" in norm(e) and norm(es) in norm(e):
+        rep.ok(RID, key, f"counted on the first solution over the slot edges: `{norm(e)[:90]}`", f.loc(call[0]))
+    else:
+        raise AnalysisError(f"MinErrorFlow.solve: cannot classify the slot count `{norm(e)[:100]}`")
+
+
+def solve_reentrant(prog: Program, rep, RID: str):
+    """solve() optimises whatever model is installed in self.solver.  After a few-values solve that is the second model; a second
+    call must first re-install the minimum-error model, otherwise the number of distinct values is taken for the minimum error."""
+    f = prog.own_method("MinErrorFlow", "solve")
+    builders = ("self._create_solver", "self._encode_flow", "self._encode_min_sum_errors_objective")
+    stage2 = [c for c in calls_in(f.node) if (dotted(c.func) or "").endswith("_encode_different_flow_values_and_objective")]
+    key = "MinErrorFlow.solve:re-entrancy"
+    if not stage2:
+        rep.ok(RID, key, "solve() installs no second model", f.loc())
+        return
+    first_opt = None
+    prologue = []
+    for st in f.node.body:
+        if any(isinstance(c, ast.Call) and dotted(c.func) == "self.solver.optimize" for c in ast.walk(st)):
+            first_opt = st
+            break
+        prologue.append(st)
+    if first_opt is None:
+        raise AnalysisError("MinErrorFlow.solve: first self.solver.optimize() not found at the top level")
+    rebuilt = None
+    for st in prologue:
+        called = {dotted(c.func) for c in ast.walk(st) if isinstance(c, ast.Call)}
+        if all(b in called for b in builders):
+            rebuilt = st
+    if rebuilt is None:
+        rep.violation(RID, key, "solve() optimises the installed model without re-installing the minimum-error model, although a previous solve() with "
+                      "few_flow_values_epsilon leaves the few-values model in self.solver: a second call takes the number of distinct values for the minimum "
+                      "error and exceeds the (1+eps) bound (or ends infeasible)", f.loc(first_opt))
+        return
+    if isinstance(rebuilt, ast.If):
+        flag = dotted(rebuilt.test)
+        if flag is None or not flag.startswith("self."):
+            raise AnalysisError(f"MinErrorFlow.solve: rebuild guarded by `{norm(rebuilt.test)}` (not a plain flag attribute)")
+        # the flag is raised where the second model is installed (same block as the stage-2 call) and nowhere lowered before it
+        raised = False
+        for st in ast.walk(f.node):
+            if isinstance(st, ast.Assign) and dotted(st.targets[0]) == flag and isinstance(st.value, ast.Constant) and st.value.value is True:
+                raised = True
+        cleared = any(isinstance(st, ast.Assign) and dotted(st.targets[0]) == "self._solution" and isinstance(st.value, ast.Constant) and st.value.value is None
+                      for st in ast.walk(rebuilt))
+        if raised and cleared:
+            rep.ok(RID, key, f"a second call re-installs the minimum-error model first (flag {flag}, cached solution dropped)", f.loc(rebuilt))
+        elif not raised:
+            rep.violation(RID, key, f"the rebuild is guarded by `{flag}`, which solve() never sets where it installs the few-values model", f.loc(rebuilt))
+        else:
+            rep.violation(RID, key, "the rebuild keeps the cached solution of the previous call", f.loc(rebuilt))
+    else:
+        rep.ok(RID, key, "every call re-installs the minimum-error model first", f.loc(rebuilt))
+
+
 def check(prog: Program, rep):
     rep.rule("C16.R1", "formulation conforms to the frozen table; non-negativity; epsilon budget row; scale 0 => ignored", floor=20)
     conformance(prog, rep, "C16.R1", "C16")
@@ -143,3 +264,12 @@ def check(prog: Program, rep):
     from rules.c10 import augmentation_guards
     from rules.common import RuleProxy
     augmentation_guards(prog, RuleProxy(rep, "C16.R6"), "C10.R4")
+    rep.rule("C16.R7", "few-values variant: slot count from the first solution, reported error recomputed from the returned values, solve() re-entrant", floor=3)
+    few_values_slots(prog, rep, "C16.R7")
+    reported_error_recomputed(prog, rep, "C16.R7")
+    solve_reentrant(prog, rep, "C16.R7")
+    rep.rule("C16.R8", "the bound w_max * |E| (possibly a numpy scalar) reaches the variables: scalar recognition of add_variables (C12.R7)", floor=1)
+    from rules.c12 import bounds_materialised
+    from rules.common import RuleProxy
+    bounds_materialised(prog, RuleProxy(rep, "C16.R8"), "C12.R7")
+
